@@ -20,6 +20,7 @@ from vx import replay as replay_engine        # noqa: E402
 OUT = os.path.join(ROOT, 'out')
 EVID = os.path.join(ROOT, 'evidence')
 VIOLATION_KINDS = {'post', 'pre', 'safety'}
+SEARCH_FALLBACK = {}   # unit -> replay search cases usable when the verifier is undecided
 
 
 def load_known_findings():
@@ -36,6 +37,7 @@ def load_units():
         mod = importlib.import_module('specs.' + m.name)
         for name, (props, builder) in getattr(mod, 'UNITS', {}).items():
             units[name] = (props, builder, m.name)
+            SEARCH_FALLBACK[name] = getattr(mod, 'SEARCH', {}).get(name, [])
     return units
 
 
@@ -204,7 +206,24 @@ def main(argv=None):
             exit_code = 1
         elif o.status == 'undecided':
             print(f'UNDECIDED unit={o.name}: {o.reason}')
-            if exit_code == 0:
+            # the verifier decided nothing (lost anchor / unsupported construct / proof-only failure). A concrete input on which the
+            # REAL code violates the executable contract is still a sound refutation: search for one; report only if it replays.
+            found = None
+            for case in SEARCH_FALLBACK.get(o.name, []):
+                w = replay_engine.search_case(case, seed, list(kf_open.keys()))
+                if w and w.get('reproduced'):
+                    found = w; break
+            if found:
+                payload = dict(property=prop, unit=o.name, engine='replay-search (verifier undecided)',
+                               obligation=f'{o.name}: executable contract `{found["case"]}`', verifier_output='verifier undecided: ' + o.reason,
+                               witness=found, how_to_replay=f'./check {prop} --replay <this file>')
+                p = write_replay(prop, o.name, 'search', payload)
+                print(f'  witness on the real code: input={json.dumps(found["input"])} observed={found["observed"]} contract says {found["expected"]}')
+                lines.append(f'VIOLATION property={prop} replay={p}')
+                nviol += 1
+                exit_code = 1
+                o.status = 'violation'
+            elif exit_code == 0:
                 exit_code = 2
     # --- engine K verdicts
     if kres:
